@@ -442,6 +442,16 @@ fn app_attrs(l: &[A]) -> StunAttributes {
     }
     s
 }
+/// more attribute bytes than the 16-bit length field of the header can express (each attribute legal on its own): the
+/// encoder must refuse, whatever the buffer; to the model this is a send without room
+fn over_long(s: &mut StunAttributes) {
+    s.add(stun_rs::attributes::turn::Data::new(vec![0xABu8; 40_000]));
+    let mut u = UnknownAttributes::default();
+    for i in 0..15_000u16 {
+        u.add(0x4000 + i);
+    }
+    s.add(u);
+}
 fn hkey(k: &KeyD) -> HMACKey {
     match k {
         KeyD::Lt(r, p, a) => HMACKey::new_long_term(
@@ -473,13 +483,14 @@ struct Cfg {
 }
 #[derive(Clone, Debug)]
 enum Op {
-    Send { now: u64, method: u16, room: bool, attrs: Vec<A> },
-    Ind { method: u16, room: bool, attrs: Vec<A> },
+    Send { now: u64, method: u16, room: u8, attrs: Vec<A> },   // room: 0 = 19-byte buffer, 1 = 4096 bytes, 2 = 80,000 bytes and more than 65,535 attribute bytes
+    Ind { method: u16, room: u8, attrs: Vec<A> },
     Recv { now: u64, decodable: bool, class: u8, method: u16, id: u32, attrs: Vec<A> },
     Tmo { now: u64 },
 }
 
 struct Run {
+    broken: bool,
     cfg: Cfg,
     client: StunClient,
     epoch: Instant,
@@ -491,6 +502,10 @@ struct Run {
     pub outstanding: Vec<u32>,    // the harness' own view (for generating targets)
     pub finished: Vec<u32>,
     pub last_events: Vec<String>,
+}
+
+fn header_of(c: &Cfg) -> String {
+    format!("H {} {} {} {} {} {} {} {}{}", c.reliable as u8, c.rto, c.rm, c.rc, c.gran, c.limit, c.mech, c.fp as u8, if c.defaults { " d" } else { "" })
 }
 
 fn build_client(c: &Cfg) -> StunClient {
@@ -523,8 +538,17 @@ fn build_client(c: &Cfg) -> StunClient {
 
 impl Run {
     fn new(cfg: Cfg) -> Run {
+        // a legal configuration must give a client: when construction panics, every operation of the history is reported as
+        // a panic (the model accepts; monitors C03 / C12 judge) on a stand-in client that is never used
+        let built = guarded(|| build_client(&cfg));
+        let broken = built.is_err();
+        let client = match built {
+            Ok(c) => c,
+            Err(()) => build_client(&Cfg { limit: 10, rc: 7, rm: 16, rto: 500_000_000, gran: 1_000_000, ..cfg.clone() }),
+        };
         Run {
-            client: build_client(&cfg),
+            client,
+            broken,
             cfg,
             epoch: Instant::now(),
             ids: vec![],
@@ -538,8 +562,7 @@ impl Run {
         }
     }
     fn header(&self) -> String {
-        let c = &self.cfg;
-        format!("H {} {} {} {} {} {} {} {}{}", c.reliable as u8, c.rto, c.rm, c.rc, c.gran, c.limit, c.mech, c.fp as u8, if c.defaults { " d" } else { "" })
+        header_of(&self.cfg)
     }
     fn at(&self, ns: u64) -> Instant {
         self.epoch + Duration::from_nanos(ns)
@@ -689,11 +712,23 @@ impl Run {
     }
 
     fn apply(&mut self, out: &mut Out, op: &Op) {
+        if self.broken {
+            let (snap, _) = self.snapshot();
+            match op {
+                Op::Send { now, method, room, attrs } =>
+                    out.rec(&format!("O S {} {} {} {} {} {}", now, self.ids.len(), self.cfg.rto, method, *room, toks(attrs))),
+                _ => return,
+            }
+            out.imp(&format!("panic;-;{}", snap));
+            out.rec("J ");
+            return;
+        }
         // the record is written after the call for S (it carries the id and the RTO the implementation used)
         match op {
             Op::Send { now, method, room, attrs } => {
-                let buf = vec![0u8; if *room { 4096 } else { 19 }];
-                let a = app_attrs(attrs);
+                let buf = vec![0u8; match *room { 0 => 19, 1 => 4096, _ => 80_000 }];
+                let mut a = app_attrs(attrs);
+                if *room == 2 { over_long(&mut a) }
                 let at = self.at(*now);
                 let m = MessageMethod::try_from(*method).unwrap();
                 let r = guarded(|| self.client.send_request(m, a, buf, at));
@@ -709,13 +744,14 @@ impl Run {
                 let (ev, extra) = self.events(*now);
                 let (snap, rto) = self.snapshot();
                 let rr = if self.cfg.reliable { self.cfg.rto } else { rto.unwrap_or(0) };
-                out.rec(&format!("O S {} {} {} {} {} {}", now, idn, rr, method, *room as u8, toks(attrs)));
+                out.rec(&format!("O S {} {} {} {} {} {}", now, idn, rr, method, *room, toks(attrs)));
                 out.imp(&format!("{};{};{}", ret, ev, snap));
                 out.rec(&format!("J {}", extra));
             }
             Op::Ind { method, room, attrs } => {
-                let buf = vec![0u8; if *room { 4096 } else { 19 }];
-                let a = app_attrs(attrs);
+                let buf = vec![0u8; match *room { 0 => 19, 1 => 4096, _ => 80_000 }];
+                let mut a = app_attrs(attrs);
+                if *room == 2 { over_long(&mut a) }
                 let m = MessageMethod::try_from(*method).unwrap();
                 let r = guarded(|| self.client.send_indication(m, a, buf));
                 let (ret, idn) = match &r {
@@ -728,7 +764,7 @@ impl Run {
                 };
                 let (ev, extra) = self.events(0);
                 let (snap, _) = self.snapshot();
-                out.rec(&format!("O N {} {} {} {}", idn, method, *room as u8, toks(attrs)));
+                out.rec(&format!("O N {} {} {} {}", idn, method, *room, toks(attrs)));
                 out.imp(&format!("{};{};{}", ret, ev, snap));
                 out.rec(&format!("J {}", extra));
             }
@@ -811,7 +847,7 @@ fn gen_cfg(rng: &mut Rng) -> Cfg {
         // huge clock granularity, limits 0 / 1 / "unlimited"
         return Cfg { reliable: rng.chance(1, 5), rto: *rng.pick(&[61_000_000_000u64, 90_000_000_000, 240_000_000_000, 3_600_000_000_000, 1]),
                      rm: *rng.pick(&[0u32, 1, 16, 1000]), rc: *rng.pick(&[0u32, 1, 2, 7]),
-                     gran: *rng.pick(&[0u64, 1_000_000, 10_000_000_000]), limit: *rng.pick(&[0usize, 1, 10, 4_000_000_000]),
+                     gran: *rng.pick(&[0u64, 1_000_000, 10_000_000_000]), limit: *rng.pick(&[0usize, 1, 10, 4_000_000_000, usize::MAX]),
                      mech: *rng.pick(&[0u8, 0, 1, 4]), fp: rng.chance(1, 3), defaults: false };
     }
     let reliable = rng.chance(1, 4);
@@ -968,8 +1004,8 @@ fn gen_reply(rng: &mut Rng, cfg: &Cfg, run: &Run, srv: &mut Server, now: u64) ->
 fn gen_rtt_history(rng: &mut Rng, out: &mut Out, stats: &mut HashMap<String, u64>) {
     let rto = *rng.pick(&[500_000_000u64, 100_000_000, 1_000_000_000, 37_000_001, 600_000_000, 300_000_000]);
     let cfg = Cfg { reliable: false, rto, rm: 16, rc: 7, gran: *rng.pick(&[1_000_000u64, 0, 50_000_000]), limit: 10, mech: 0, fp: false, defaults: false };
+    out.rec(&header_of(&cfg));
     let mut run = Run::new(cfg.clone());
-    out.rec(&run.header());
     let mut now: u64 = 5;
     let mut prev_send: Option<u64> = None;      // when the previous request was sent
     let mut prev_last_tx: u64 = 0;              // when it was last (re)transmitted
@@ -993,7 +1029,7 @@ fn gen_rtt_history(rng: &mut Rng, out: &mut Out, stats: &mut HashMap<String, u64
         now = target.max(now + 1);
         prev_send = Some(now);
         prev_last_tx = now;
-        run.apply(out, &Op::Send { now, method: 1, room: true, attrs: vec![] });
+        run.apply(out, &Op::Send { now, method: 1, room: 1, attrs: vec![] });
         let Some(&id) = run.outstanding.last() else { continue };
         // response delay: mostly well below the RTO, sometimes beyond the first retransmission
         let delay = match rng.below(9) {
@@ -1029,8 +1065,8 @@ fn gen_lt_history(rng: &mut Rng, out: &mut Out, stats: &mut HashMap<String, u64>
     cfg.mech = 4;
     cfg.defaults = false;
     if cfg.limit < 2 { cfg.limit = 3 }
+    out.rec(&header_of(&cfg));
     let mut run = Run::new(cfg.clone());
-    out.rec(&run.header());
     let mut now: u64 = rng.below(1000);
     let step = (cfg.rto / 5).max(1);
     let mut srv = Server { realm: 1, nonce: 0, algs: None, alg: Alg::Md5 };
@@ -1052,7 +1088,7 @@ fn gen_lt_history(rng: &mut Rng, out: &mut Out, stats: &mut HashMap<String, u64>
     let good = |srv: &Server| KeyD::Lt(srv.realm, 0, srv.alg.clone());
     let mut send = |run: &mut Run, out: &mut Out, rng: &mut Rng, now: &mut u64| -> Option<u32> {
         *now += step;
-        run.apply(out, &Op::Send { now: *now, method: 1, room: true, attrs: if rng.chance(1, 4) { gen_app(rng) } else { vec![] } });
+        run.apply(out, &Op::Send { now: *now, method: 1, room: 1, attrs: if rng.chance(1, 4) { gen_app(rng) } else { vec![] } });
         run.outstanding.last().copied()
     };
     let reply = |run: &mut Run, out: &mut Out, now: &mut u64, id: u32, class: u8, attrs: Vec<A>| {
@@ -1126,8 +1162,8 @@ fn gen_history(rng: &mut Rng, out: &mut Out, stats: &mut HashMap<String, u64>) {
         return gen_lt_history(rng, out, stats);
     }
     let cfg = gen_cfg(rng);
+    out.rec(&header_of(&cfg));
     let mut run = Run::new(cfg.clone());
-    out.rec(&run.header());
     let nops = rng.range(8, 60);
     let mut now: u64 = rng.below(1000);
     let mut srv = Server { realm: 1, nonce: 0, algs: None, alg: Alg::Md5 };
@@ -1136,9 +1172,9 @@ fn gen_history(rng: &mut Rng, out: &mut Out, stats: &mut HashMap<String, u64>) {
         let w = rng.below(12);
         let op = if w < 3 {
             if rng.chance(1, 3) { /* same instant as the previous operation */ } else { now += *rng.pick(&[0, 1, 1_000_000, unit / 2, unit, unit * 3, 601_000_000_000]) / if rng.chance(1, 2) { 1 } else { 7 }; }
-            Op::Send { now, method: *rng.pick(&[1u16, 3, 0xFFF]), room: !rng.chance(1, 15), attrs: gen_app(rng) }
+            Op::Send { now, method: *rng.pick(&[1u16, 3, 0xFFF]), room: *rng.pick(&[1u8, 1, 1, 1, 1, 1, 1, 1, 1, 1, 1, 1, 1, 1, 1, 1, 1, 1, 1, 1, 1, 1, 1, 1, 1, 1, 1, 0, 0, 2]), attrs: gen_app(rng) }
         } else if w < 4 {
-            Op::Ind { method: 1, room: !rng.chance(1, 15), attrs: gen_app(rng) }
+            Op::Ind { method: 1, room: *rng.pick(&[1u8, 1, 1, 1, 1, 1, 1, 1, 1, 1, 1, 1, 1, 1, 1, 1, 1, 1, 1, 1, 1, 1, 1, 1, 1, 1, 1, 0, 0, 2]), attrs: gen_app(rng) }
         } else if w < 8 {
             // the controller fires its timer: on time, early, or late by various amounts
             let target = run.armed.unwrap_or(now + unit);
@@ -1175,15 +1211,14 @@ fn replay(lines: Vec<String>, out: &mut Out) {
                     reliable: f[1] == "1", rto: f[2].parse().unwrap(), rm: f[3].parse().unwrap(), rc: f[4].parse().unwrap(),
                     gran: f[5].parse().unwrap(), limit: f[6].parse().unwrap(), mech: f[7].parse().unwrap(), fp: f[8] == "1", defaults: f.get(9) == Some(&"d"),
                 };
-                let r = Run::new(cfg);
-                out.rec(&r.header());
-                run = Some(r);
+                out.rec(&header_of(&cfg));
+                run = Some(Run::new(cfg));
             }
             "O" => {
                 let r = run.as_mut().expect("H first");
                 let op = match f[1] {
-                    "S" => Op::Send { now: f[2].parse().unwrap(), method: f[5].parse().unwrap(), room: f[6] == "1", attrs: parse_toks(f[7]) },
-                    "N" => Op::Ind { method: f[3].parse().unwrap(), room: f[4] == "1", attrs: parse_toks(f[5]) },
+                    "S" => Op::Send { now: f[2].parse().unwrap(), method: f[5].parse().unwrap(), room: f[6].parse().unwrap(), attrs: parse_toks(f[7]) },
+                    "N" => Op::Ind { method: f[3].parse().unwrap(), room: f[4].parse().unwrap(), attrs: parse_toks(f[5]) },
                     "R" => Op::Recv { now: f[2].parse().unwrap(), decodable: f[3] == "1", class: f[4].parse().unwrap(), method: f[5].parse().unwrap(), id: f[6].parse().unwrap(), attrs: parse_toks(f[7]) },
                     _ => Op::Tmo { now: f[2].parse().unwrap() },
                 };
